@@ -55,7 +55,12 @@ LEVEL_TEXT = (
     "interrupted_pause_is_kept; the composition in a processing cycle whose API call escalates (request model ∘ throttler "
     "model, every script / configuration / throttler state): escalation_contained (nothing reaches the worker), "
     "escalation_pauses_object (delays[min(p,last)] counted from the escalation, growing per consecutive error), "
-    "escalation_pause_interrupted_is_kept, paused_object_makes_no_request, recovers_and_resets; vault LTS: single_reauth, single_reauth_when_logins_deliver, reauth_possible, "
+    "escalation_pause_interrupted_is_kept, paused_object_makes_no_request, recovers_and_resets; patching.patch_obj between "
+    "the API client and the throttler (up to four api.patch calls - merge/JSON-patch of the object / of its /status - and its "
+    "own except clauses): patch_escalation_pauses_object (an escalation of ANY of the calls pauses the object unless it is a "
+    "404 or a 422 answered to a JSON-patch), merge_patch_4xx_pauses_object ('other 4xx escalate at once' incl. HTTP 422 to a "
+    "merge-patch: one attempt, pause), gone_or_conflict_is_no_error, any_422_swallowed_witness (one except-422 around all four "
+    "calls: the property fails); vault LTS: single_reauth, single_reauth_when_logins_deliver, reauth_possible, "
     "no_impossible_state. GUARDED (_partial, with proved negation witnesses replayed from the corpus and open finding "
     "F3): invalid_not_reused_partial and all_proceed_fresh_partial (guard: last 3 invalidations of the SAME key with "
     "the SAME priority). NEGATIVE (open finding F9): body_read_failure_not_retried_witness. ORACLE-ONLY clauses (no "
@@ -63,19 +68,22 @@ LEVEL_TEXT = (
     "REAL queueing.watcher/worker + process_resource_event (2-4 objects, failing index/event filters, scalar/empty/list "
     "delays, worker_limit None/1/2): holds (F8, F10 repaired) except under worker_limit (open finding F11, by design of "
     "that setting) - and by part S on the whole REAL operator against the fake API server (2-3 objects, 1-2 of them with "
-    "scripted faults on their own PATCHes: 5xx/403/429 with Retry-After, connection errors, timeouts, fatal 4xx): every "
+    "scripted faults on their own PATCHes - whichever requests the real patching.patch_obj sends: merge-patch of the object, "
+    "merge-patch of /status as a subresource, JSON-patch of a finalizer -: 5xx/403/429 with Retry-After, connection errors, "
+    "timeouts, fatal 4xx incl. 422 (an 'other 4xx' unless answered to a JSON-patch) and 404): every "
     "retry gap, every pause after an escalation (lower bound, growth per consecutive error, reset by a success), the "
     "reaction to every change of a faulty object once it is free again, the healthy objects' handling and the operator's "
     "survival are judged. 'processing recovers once errors stop' is per throttler cycle (a NEW event of the object is "
     "needed: the failed one is dropped). Tie: status->class chain, >=400 guard and retry tuple extracted from the AST and proved "
     "equal; the real api.request / api.get / throttled / Vault+authenticated+authenticator run against the models "
     "(differential with exact ticks; product run of concurrent objects; trace acceptance with vault-state snapshots; the whole "
-    "operator's PATCH schedule against processCycles). The "
+    "operator's PATCH schedule against processCyclesP = patch_obj model ∘ request model ∘ throttler model). The "
     "structure of the retry loop, of throttled() and of the Vault methods is tied by those runs (sampled), not by translation.")
 TIE = ("T (check_response chain + retry tuple: AST → Lean, proved equal) + D (real api.request/api.get and real throttled "
        "under virtual time, exact tick comparison, incl. the N-object product run) + A (real Vault/authenticated/"
        "authenticator: labelled segments accepted by the Lean LTS with equal vault state after every label) + D (part S: "
-       "the real operator's PATCH attempts cycle by cycle and its resumption after a pause = request model ∘ throttler model, "
+       "the real operator's API calls per processing cycle (kind of request, attempts) and its resumption after a pause = "
+       "patch_obj model ∘ request model ∘ throttler model, "
        "exact ticks); part C (real watcher/worker/process_resource_event) is oracle-only")
 THEOREMS = [("Kopf.Props.C12", "Kopf.C12." + n) for n in [
     "attempts_bound", "gap_ge_backoff", "gap_ge_retry_after", "gap_ge_requested", "requested_rounded_up",
@@ -87,6 +95,8 @@ THEOREMS = [("Kopf.Props.C12", "Kopf.C12." + n) for n in [
     "interrupted_pause_is_kept",
     "escalation_contained", "escalation_pauses_object", "escalation_pause_interrupted_is_kept",
     "paused_object_makes_no_request", "recovers_and_resets",
+    "patch_escalation_pauses_object", "merge_patch_4xx_pauses_object", "gone_or_conflict_is_no_error",
+    "any_422_swallowed_witness",
     "single_reauth", "single_reauth_when_logins_deliver", "reauth_possible", "all_proceed_fresh_partial",
     "invalid_not_reused_partial",
     "invalid_reused_beyond_history_witness", "invalid_reused_under_other_key_witness",
@@ -116,7 +126,10 @@ RULE = (
     "also: 403/429 answers, logins returning the credential handed out 2/3/4 logins ago (the edge of the vault's memory). "
     "operator (part S): 2-3 objects (1-2 faulty), error_backoffs of 0-3 items or a scalar, error_delays list/scalar/empty, "
     "enforce_retry_after, per faulty object 1-4 scripted API calls that exhaust the retries / hit a fatal 4xx / recover, "
-    "2-7 changes per object placed into the retries and the pauses, one long after the last fault. A case is non-trivial "
+    "2-7 changes per object placed into the retries and the pauses, one long after the last fault; the shape of the cycle's API "
+    "work (67%: handler results for the status stanza / /status a subresource / a deletion handler, i.e. a finalizer JSON-patch; "
+    "an on.event marker handler = one invocation per processing), 0-3 requests served before the scripted faults so that they fall "
+    "on the later requests of patch_obj; fatal answers incl. 422 (20%+), 404, 402/413/418/451. A case is non-trivial "
     "when it leaves the straight path (a retry, an escalation, a throttling activation, an invalidation).")
 TRUSTED = [
     "pyextract vocabulary for errors.check_response (response.status comparisons) and the except-tuple of api.request",
@@ -128,7 +141,9 @@ TRUSTED = [
     "method that entered the guard, the raw api.request re-wrapped by the real auth.authenticated with a tracer",
     "part S: harness.sim (virtual-time loop, fake API server with injected faults: the answer leaves the server 1/64 s after "
     "the request, a timeout lasts settings.networking.request_timeout), harness/props/sim_c12.py (request log + scripted "
-    "handlers' invocations; nothing inside kopf is wrapped), a cycle = one handler invocation and the PATCHes up to the next one",
+    "handlers' invocations; nothing inside kopf is wrapped), a cycle = one invocation of the scenario's on.event marker handler "
+    "(without one: of any handler) and the PATCHes up to the next one; a call = the consecutive requests of one kind "
+    "(Content-Type x URL) up to an answered one",
     "if the shared Driver.lean cannot start because another property's module is missing, the same handler "
     "(Kopf.Drv.C12.handle) is served by a private main (harness/props/c12.py::ask_lean)",
 ]
@@ -142,7 +157,7 @@ ASSUMPTIONS = [
     "part C runs async handlers only (no executor threads under the virtual clock), one resource kind, and does not generate worker_limit together with an index handler: there, fewer slots than listed objects dead-lock start-up with no error at all (reported to C17, not this property's clause); cases without a failing object are not judged",
     "attempts_bound bounds one pass of api.request; a 401/APISessionClosed re-enters through auth.authenticated with a full budget (api.py comment) - the composition is exercised by the vault traces only",
     "the SSL close-notify marker is modelled on raised exceptions only (an APIError whose message echoes it is not generated)",
-    "part S: create/update handlers that succeed at once (one API call per cycle: the merge-patch that stores the result; no finalizer JSON-patch, no status subresource), worker_limit None, no 401/404/422 faults (re-authentication is part V's subject, 404/422 are 'object gone' / conflict answers of other mechanisms), numeric Retry-After only; a cycle is recognised by its handler invocation; after a failed cycle the object waits for its next event (the failed one is dropped, as noted above)",
+    "part S: handlers that succeed at once; worker_limit None; no 401 faults (re-authentication is part V's subject); a 404 and a 422 answered to a JSON-patch end the oracle's judgement of that object (the tie with the patch_obj model goes on: endings gone / postponed); whether a JSON-patch postponed by a 422 is sent again later is not this property's subject; no deletions in the timelines (the finalizer is only added); a processing that made no request at all counts as a success",
     "an error answer whose body cannot be read: with aiohttp both json() and text() then raise the same network error, which is retried like any other; the fake answers never fail on the body of an ERROR answer (only of the final 2xx, F9)",
 ]
 
@@ -1888,12 +1903,16 @@ SIM_END = 400.0
 SIM_B = [0, 0.25, 0.5, 1, 2]
 SIM_D = [2, 4, 8, 16]
 SIM_TRANSIENT = [500, 502, 503, 504, 429, 429, 403]
-SIM_FATAL = [400, 405, 409, 410, 415]
+SIM_FATAL = [400, 405, 409, 410, 415, 422, 422, 422, 402, 413, 418, 451, 404]
+# 422 and 404 are answers `patching.patch_obj` has clauses of its own for: which of its requests the fault hits (the
+# merge-patch of the object / of its /status: an 'other 4xx'; a JSON-patch: a failed resourceVersion test) is decided
+# by what the real operator sends at that position — see the `shape` of a scenario below.
+SIM_MARKER = "ev"           # id of the on.event handler of a scenario: invoked once per processing cycle that runs
 
 
 def _gen_sim_fault(rng: random.Random, transient: bool) -> list:
     if not transient:
-        return ["status", rng.choice(SIM_FATAL)]
+        return ["status", 422 if rng.random() < 0.2 else rng.choice(SIM_FATAL)]
     r = rng.random()
     if r < 0.15:
         return ["conn-before"]
@@ -1936,7 +1955,9 @@ def gen_sim(rng: random.Random) -> dict:
             else:
                 script += [_gen_sim_fault(rng, True) for _ in range(rng.randint(0, nb))]
                 script.append(_gen_sim_fault(rng, False) if how == "fatal" else None)
-        faults[name] = script
+        # 0-3 requests served normally first: the scripted faults then fall on later requests of the object (the
+        # merge-patch of its /status, the JSON-patch of a finalizer, the requests of a later cycle)
+        faults[name] = [None] * rng.choice([0, 0, 0, 1, 1, 2, 3]) + script
         for _ in range(rng.choice([2, 3, 4, 6])):
             edit(rng.randrange(2, 320) / 4, name)              # 0.5 … 80 s: into the passes and the pauses
         edit(300.0, name)                                      # long after the last scripted fault
@@ -1949,6 +1970,21 @@ def gen_sim(rng: random.Random) -> dict:
           "handlers": [{"kind": "create", "id": "c1", "script": []}, {"kind": "update", "id": "u1", "script": []}],
           "objects": [{"name": n} for n in names], "timeline": sorted(timeline, key=lambda e: e[0]),
           "patch_faults": faults, "end": SIM_END}
+    # the shape of the cycle's API work: what the REAL application.apply -> patching.patch_obj has to send. Two
+    # thirds of the scenarios make it more than the one merge-patch of the object: results for the status stanza
+    # (with /status a subresource: a second merge-patch), a deletion handler (the finalizer goes in by a JSON-patch
+    # with a resourceVersion test, in a cycle of its own before the handlers). The scripted faults fall on these
+    # requests in the order the operator sends them.
+    if rng.random() < 0.67:
+        results, sub, fin = rng.random() < 0.7, rng.random() < 0.6, rng.random() < 0.5
+        if results:
+            sc["handlers"][0]["default"] = ["ok", {"r": 1}]
+            sc["handlers"][1]["default"] = ["ok", {"r": 2}]
+        if sub:
+            sc["status_subresource"] = True
+        if fin:
+            sc["handlers"].append({"kind": "delete", "id": "d1", "script": []})
+        sc["handlers"].append({"kind": "event", "id": SIM_MARKER, "script": []})
     return {"part": "sim", "sc": sc}
 
 
@@ -1991,8 +2027,12 @@ def _sim_class(p: dict) -> str:
         return "ok"
     if r in (403, 429) or 500 <= r < 600:
         return "transient"
+    if r == 422 and "json-patch" not in (p.get("ctype") or ""):
+        return "fatal"            # an 'other 4xx' like any: only a JSON-patch (it carries a `test` of the
+                                  # resourceVersion) can be refused with 422 because newer changes exist
     if r in (401, 404, 422) or r >= 600:
-        return "special"          # re-authentication / 'the object is gone' / conflicts: other mechanisms
+        return "special"          # re-authentication / 'the object is gone' / a failed resourceVersion test of a
+                                  # JSON-patch: other mechanisms
     return "fatal"
 
 
@@ -2043,6 +2083,13 @@ def oracle_sim(case: dict, obs: dict) -> list[tuple[str, dict]]:
         i, k = 0, 0
         spans: list[tuple[float, float]] = []       # (start of a cycle's first request, until when the object is busy or paused)
         judged_all = True
+        # a processing of the object = one invocation of its handlers and the requests up to the next one (with the
+        # on.event marker of the scenario: one per cycle that runs). An answered request followed by another request
+        # of the same processing is not yet 'a success' of the processing: the count of consecutive errors stands.
+        starts = _sim_starts(case, obs, name)
+
+        def cyc(p: dict) -> int:
+            return sum(1 for t0 in starts if t0 <= p["t"])
         while i < len(P) and len(out) < 6:
             j, idx, ending = i, 0, None
             while ending is None:
@@ -2076,7 +2123,8 @@ def oracle_sim(case: dict, obs: dict) -> list[tuple[str, dict]]:
                 judged_all = False
                 break
             if ending == "ok":
-                k = 0
+                if not (j + 1 < len(P) and cyc(P[j + 1]) == cyc(p)):
+                    k = 0
                 spans.append((P[i]["t"], p["t_end"]))
             elif ending in ("fatal", "exhausted"):
                 # 'an escalated error pauses that object for the configured error delays (growing per consecutive error)'
@@ -2089,6 +2137,8 @@ def oracle_sim(case: dict, obs: dict) -> list[tuple[str, dict]]:
                     out.append((f"{name}: escalated at {T:g} (consecutive error #{k}), the configured pause is {pause:g} s, "
                                 f"but the object was processed again at {later[0]:g}", {"site": "operator", "shape": "pause-not-served"}))
                 spans.append((P[i]["t"], deadline))
+            if j + 1 < len(P) and cyc(P[j + 1]) > cyc(p) + 1 and _sim_marked(case):
+                k = 0        # 'reset by a success': a processing ran in between that needed no request at all
             i = j + 1
         # 'processing recovers once errors stop': every change of the object is taken up — at once, or, when it comes
         # while the object is busy with a request (and its retries) or serving a pause, when that is over
@@ -2099,6 +2149,48 @@ def oracle_sim(case: dict, obs: dict) -> list[tuple[str, dict]]:
                     if a < x < b:
                         x = b
                 reacted(x, f"changed at {te:g}, free (no request in flight, no pause to serve)", "no-recovery-after-pause")
+    return out
+
+
+def _sim_marked(case: dict) -> bool:
+    return any(h.get("id") == SIM_MARKER for h in case["sc"].get("handlers", []))
+
+
+def _sim_starts(case: dict, obs: dict, name: str) -> list[float]:
+    """when the processings of the object that ran began, as observed: the invocations of the scenario's on.event
+    marker (one per cycle that runs, before anything else of the cycle); without a marker: of any handler"""
+    marked = _sim_marked(case)
+    return sorted(c[1] for c in obs["calls"] if c[0] == name and (not marked or c[2] == SIM_MARKER))
+
+
+def _sim_kind(p: dict) -> str:
+    """which request of patch_obj this is, from what was sent: Content-Type and URL"""
+    return ("json" if "json-patch" in (p.get("ctype") or "") else "merge") + "-" + ("status" if p.get("sub") == "status" else "body")
+
+
+def sim_cycles(case: dict, obs: dict, name: str) -> list[dict]:
+    """the observed processings of one object, marker by marker: start, and the API calls made in it (a call = the
+    consecutive requests of one kind up to an answered one; grouping by observation only)."""
+    P = obs["patches"].get(name, [])
+
+    def split(ps: list[dict]) -> list[list[dict]]:
+        calls: list[list[dict]] = []
+        for p in ps:
+            prev = calls[-1][-1] if calls else None
+            if prev is not None and _sim_kind(prev) == _sim_kind(p) and not (isinstance(prev["resp"], int) and prev["resp"] < 400):
+                calls[-1].append(p)
+            else:
+                calls.append([p])
+        return calls
+
+    if not _sim_marked(case):
+        # no marker in the scenario (the one-merge-patch shape): a cycle = a handler invocation and its requests
+        return [{"t": ps[0]["t"], "calls": split(ps)} for ps in sim_passes(obs, name)]
+    starts = _sim_starts(case, obs, name)
+    out = []
+    for n, t0 in enumerate(starts):
+        t1 = starts[n + 1] if n + 1 < len(starts) else float("inf")
+        out.append({"t": t0, "calls": split([p for p in P if t0 <= p["t"] < t1])})
     return out
 
 
@@ -2150,37 +2242,45 @@ def sim_to_lean(case: dict, obs: dict) -> tuple[list[list], list[tuple[str, list
     if obs.get("sim_error") or obs.get("died"):
         return reqs, index
     for name in sorted(case["sc"].get("patch_faults") or {}):
-        passes = sim_passes(obs, name)
-        atts = [[_sim_att(p) for p in ps] for ps in passes]
-        if not passes or any(a is None for aa in atts for a in aa):
+        # the cycle's API work is one patch_obj: its calls with their kinds (model part 5), every cycle that ran
+        cycles = sim_cycles(case, obs, name)
+        if not cycles or any(p["t"] < cycles[0]["t"] for p in obs["patches"].get(name, [])):
             continue
-        reqs.append(["C12.object", cfg, delays, [{"t": tk(ps[0]["t"]), "script": aa, "wake2": 0} for ps, aa in zip(passes, atts)]])
-        index.append((name, passes))
+        atts = [[[_sim_att(p) for p in call] for call in c["calls"]] for c in cycles]
+        if any(a is None for cc in atts for aa in cc for a in aa):
+            continue
+        reqs.append(["C12.objectP", cfg, delays,
+                     [{"t": tk(c["calls"][0][0]["t"] if c["calls"] else c["t"]),
+                       "calls": [{"kind": _sim_kind(call[0]), "script": aa} for call, aa in zip(c["calls"], cc)],
+                       "wake2": 0} for c, cc in zip(cycles, atts)]])
+        index.append((name, cycles))
     return reqs, index
 
 
 def sim_compare(case: dict, obs: dict, answers: list[Any]) -> list[tuple[str, Any, Any]]:
-    """the operator's PATCH schedule of every faulty object against request-model ∘ throttler-model:
-    the attempts of every cycle (exact ticks), how the call ended, and — when a change of the object was
+    """the operator's PATCH schedule of every faulty object against patch_obj-model ∘ request-model ∘ throttler-model:
+    the calls of every cycle and their attempts (exact ticks), how each call ended, and — when a change of the object was
     waiting — the instant the object is processed again = the model's `active_until`."""
     res = []
     _, index = sim_to_lean(case, obs)
     sc = case["sc"]
     for (name, passes), m in zip(index, answers):
         edits = sorted(e[0] for e in sc["timeline"] if e[1] == "edit" and e[2] == name)
-        impl = [{"times": [tk(p["t"]) for p in ps], "ok": isinstance(ps[-1]["resp"], int) and ps[-1]["resp"] < 400} for ps in passes]
+        cycles = passes
+        impl = [[{"times": [tk(p["t"]) for p in call], "ok": isinstance(call[-1]["resp"], int) and call[-1]["resp"] < 400}
+                 for call in c["calls"]] for c in cycles]
         if not isinstance(m, list):
             res.append((f"operator: PATCH schedule of {name}", impl, m))
             continue
-        res.append((f"operator: PATCH attempts of {name}, cycle by cycle", impl,
-                    [{"times": x.get("times"), "ok": x.get("outcome") == "ok"} for x in m]))
+        res.append((f"operator: the calls of patch_obj for {name} and their attempts, cycle by cycle", impl,
+                    [[{"times": x.get("times"), "ok": x.get("outcome") == "ok"} for x in (c.get("calls") or [])] for c in m]))
         resume_i, resume_m = [], []
-        for i, (ps, x) in enumerate(zip(passes, m)):
+        for i, (c, x) in enumerate(zip(cycles, m)):
             u = x.get("until")
-            if u is None or i + 1 >= len(passes):
+            if u is None or i + 1 >= len(cycles) or not c["calls"]:
                 continue
-            if any(tk(ps[0]["t"]) < tk(te) <= u for te in edits):
-                resume_i.append(tk(passes[i + 1][0]["t"]))
+            if any(tk(c["calls"][0][0]["t"]) < tk(te) <= u for te in edits):
+                resume_i.append(tk(cycles[i + 1]["t"]))
                 resume_m.append(u)
         res.append((f"operator: {name} is processed again when its pause ends", resume_i, resume_m))
         if any(x.get("escaped") != "none" for x in m):
@@ -2190,7 +2290,8 @@ def sim_compare(case: dict, obs: dict, answers: list[Any]) -> list[tuple[str, An
 
 def key_sim(case: dict, obs: dict) -> tuple[str, bool]:
     sc = case["sc"]
-    kinds = {n: [_sim_class(p)[0] + str(p["resp"])[:3] for p in obs.get("patches", {}).get(n, [])] for n in sorted(sc.get("patch_faults") or {})}
+    kinds = {n: [_sim_class(p)[0] + str(p["resp"])[:3] + _sim_kind(p)[0] + _sim_kind(p)[-1] for p in obs.get("patches", {}).get(n, [])]
+             for n in sorted(sc.get("patch_faults") or {})}
     st = sc["settings"]
     return json.dumps([kinds, st["networking.error_backoffs"], st["queueing.error_delays"], st["networking.enforce_retry_after"]]), \
         any(_sim_class(p) != "ok" for ps in obs.get("patches", {}).values() for p in ps)
@@ -2381,9 +2482,16 @@ def histogram(case: dict, obs: dict, hist: dict) -> None:
         c("sim.error_backoffs", "scalar" if not isinstance(st["networking.error_backoffs"], list) else len(st["networking.error_backoffs"]))
         c("sim.error_delays", "scalar" if not isinstance(st["queueing.error_delays"], list) else len(st["queueing.error_delays"]))
         c("sim.enforce_retry_after", st["networking.enforce_retry_after"])
+        hs = case["sc"].get("handlers", [])
+        c("sim.shape", "+".join(["merge"] + (["results"] if any(isinstance(h.get("default"), list) for h in hs) else [])
+                                + (["status-subresource"] if case["sc"].get("status_subresource") else [])
+                                + (["finalizer"] if any(h["kind"] == "delete" for h in hs) else [])))
         for ps in obs.get("patches", {}).values():
             for p_ in ps:
                 c("sim.patch_answer", p_["resp"])
+                c("sim.patch_request", _sim_kind(p_))
+                if p_["spec"] is not None:
+                    c("sim.fault_on", f"{_sim_kind(p_)}:{_sim_class(p_)}" + (f":{p_['resp']}" if p_["resp"] in (404, 422) else ""))
                 if _sim_requested(p_["spec"]) is not None:
                     c("sim.retry_after", "header" if len(p_["spec"]) > 2 and p_["spec"][2] else "details")
         c("sim.outcome", "stalled" if obs.get("sim_error") else "died" if obs.get("died") else "alive")
